@@ -450,7 +450,7 @@ def model_obj_canon(t):
     raise ValueError(t)
 
 
-EXACT_KINDS = ("Call", "Compare", "UnaryOp")
+EXACT_KINDS = ("Call:isinstance", "Call:lib_int", "Compare", "UnaryOp")  # lib_ident(e) is as exact as e is
 AGREEMENT_MIN = 0.90
 NARROWER_MAX = 0.06
 
@@ -614,6 +614,8 @@ def correspondence(rep, proof, tier, rng, found_input):
                 impl = c["impl"].get(lab)
                 node = c["render"].nodes[lab]
                 kn = type(node).__name__
+                if isinstance(node, ast.Call) and isinstance(node.func, ast.Name):
+                    kn = "Call:" + node.func.id
                 if impl is None:
                     continue  # node pyanalyze did not visit (dead code after narrowing): nothing to compare
                 if c01_canon.has_unknown(impl):
